@@ -202,7 +202,7 @@ CLAIMED = {
              "first line of the connection), C09_blocks_in_front (secrets in one or several decryption-secrets blocks in front of the packets = the same secrets in a file, "
              "for any traffic, also as the only source), C09_blocks_anywhere_tls (for TLS over TCP the blocks may stand anywhere). Closed under the global context. The text "
              "model is tied to the code by correspondence on structured and near-miss texts; ten ways of supplying the same secrets must give byte-identical exports.",
-        note="Trusted: Coq kernel; key-log text is ASCII; pcapng block framing of DSBs is C12's reader model; open()/decode and working-directory independence are exercised "
+        note="Trusted: Coq kernel; the key-log model reads bytes (bytes >= 0x80, which the code decodes to replacement characters, match nothing: tied by correspondence); pcapng block framing of DSBs is C12's reader model; open()/decode and working-directory independence are exercised "
              "by the check only.",
         technique="Coq proof (line splitting lemmas, deterministic regex matcher, closed form of the last-wins loops, folds that only append to the key log) + byte-identical exports under ten supplies",
         design="I.4 C09"),
